@@ -20,7 +20,7 @@ import json
 
 from harness.sexp import Sym
 
-CASE_TIMEOUT = {"quick": 120, "thorough": 240}
+CASE_TIMEOUT = {"quick": 20, "thorough": 240}
 TREE_CAP = 6000
 
 
@@ -252,6 +252,8 @@ def gen(rng, i, tier):
     cap = 6 if nun + npr <= 1 else (4 if nun <= 1 and npr <= 1 else 3)
     if nun >= 2:
         cap = 2
+    if tier == "quick" and nun + npr >= 2:
+        cap = min(cap, 3)       # the quick tier runs on every change: keep iterated products/unions small
     na = rng.randint(1, cap)
     nb = rng.randint(1, cap)
     modes = ["some", "some", "some", "none", "all"]
